@@ -357,6 +357,18 @@ class XoriImmediate(RewritePattern):
             )
 
 
+_SINGLE_BIT_OPS = (
+    rv32.BclrIOp,
+    rv32.BextIOp,
+    rv32.BinvIOp,
+    rv32.BsetIOp,
+    rv64.BclrIOp,
+    rv64.BextIOp,
+    rv64.BinvIOp,
+    rv64.BsetIOp,
+)
+
+
 class ShiftbyZero(RewritePattern, Generic[IWidth]):
     """
     shift(x, 0) -> x
@@ -375,8 +387,13 @@ class ShiftbyZero(RewritePattern, Generic[IWidth]):
         op: Operation,
         rewriter: PatternRewriter,
     ) -> None:
-        # check if the shift amount is zero
-        if isa(op, self.shift_op_type) and (op.immediate.value.data == 0):
+        # check if the shift amount is zero; the single-bit instructions (bclri, bexti,
+        # binvi, bseti) share the base class but are not the identity for index 0
+        if (
+            isa(op, self.shift_op_type)
+            and (op.immediate.value.data == 0)
+            and not isinstance(op, _SINGLE_BIT_OPS)
+        ):
             rewriter.replace(op, riscv.MVOp(op.rs1, rd=op.rd.type))
 
 
